@@ -45,6 +45,7 @@ type pathWalker struct {
 	beyondLen    bool            // a reslice beyond len (within cap) was seen
 	maxSteps     int
 	onSlice      func(w *pathWalker, sl *ssa.Slice)
+	onPhi        func(w *pathWalker, ph *ssa.Phi, incoming ssa.Value)
 }
 
 // walk follows the path from block b (entered from pred, may be nil). It
@@ -83,6 +84,9 @@ func (w *pathWalker) walk(b, pred *ssa.BasicBlock) string {
 				u := upd{ph: ph}
 				if idx >= 0 {
 					u.n, u.ok = w.evalNoPhi(ph.Edges[idx])
+					if w.onPhi != nil {
+						w.onPhi(w, ph, ph.Edges[idx])
+					}
 				}
 				upds = append(upds, u)
 			}
